@@ -1,7 +1,7 @@
 /-
 Property theorems for Connector (all grid sizes `n`, all agent counts `k`, all states).  Helper lemmas and
 proofs live in Env/Connector/{Lemmas,GridLemmas,ConsLemmas,RefineLemmas,StepLemmas,CountLemmas,RouteLemmas,
-FeasLemmas,SolvableLemmas}.lean.  The first group of theorems only needs the grid to be `n × n`
+FeasLemmas,SolvableLemmas,SolveLemmas,EpisodeLemmas}.lean.  The first group of theorems only needs the grid to be `n × n`
 (`Grid.shaped s.grid n n`) and, where an agent's own cells are rewritten, its stored position inside the grid;
 joint actions are in-spec (`0 ≤ a ≤ 4` for every agent).  The second group (appended sections at the end of the
 file) works from `Consistent n k s` and an in-spec joint action of length `k > 0`: the full refinement
@@ -13,6 +13,7 @@ predicates are also evaluated by the driver on every implementation transition (
 import JumanjiModel.Env.Connector.Lemmas
 import JumanjiModel.Env.Connector.Bounds
 import JumanjiModel.Env.Connector.SolvableLemmas
+import JumanjiModel.Env.Connector.EpisodeLemmas
 open Jm Jx Connector
 
 namespace Props.C04
@@ -315,3 +316,141 @@ theorem connector_walk_board_solvable (n k : Nat) (s : State) (solved : Grid Int
 example : solvedBoardB 3 2 ⟨[[2, 0, 3], [0, 0, 0], [5, 0, 6]], 0,
     [⟨0, (0, 0), (0, 2), (0, 0)⟩, ⟨1, (2, 0), (2, 2), (2, 0)⟩]⟩ [[2, 1, 3], [0, 0, 0], [5, 4, 6]] = true := by decide
 end Props.C10
+
+/-! ## Operational solvability and the return of the solving episode (proof completion 2) -/
+
+namespace Props.C10
+/-- what a route plan is (`Connector.Plan n k s routes`, a `Prop` structure): the state is consistent, there is
+one route per agent, the route of agent number `i` is a chain of pairwise different 4-adjacent cells inside the
+grid from the agent's head to its target whose cells after the head are free for it (empty or its own target
+value), and routes of different agents never share a cell -/
+theorem connector_plan_iff (n k : Nat) (s : State) (routes : List (List Pos)) :
+    Connector.Plan n k s routes ↔
+      (Connector.Cons n k s ∧ routes.length = k ∧
+        (∀ (i : Nat) (ag : Agent) (r : List Pos), s.agents[i]? = some ag → routes[i]? = some r →
+          r.head? = some ag.position ∧ r.getLast? = some ag.target ∧ isChain r = true ∧ r.Nodup ∧
+            (∀ c ∈ r, inGrid n c) ∧ ∀ c ∈ r.tail, cell s.grid c = 0 ∨ cell s.grid c = tgtVal (i : Int)) ∧
+        (∀ (i j : Nat) (r r' : List Pos), i ≠ j → routes[i]? = some r → routes[j]? = some r' → ∀ c ∈ r, c ∉ r')) := by
+  constructor
+  · intro P
+    exact ⟨P.cons, P.len, fun i ag r hag hr => by
+      have R := P.route i ag r hag hr
+      exact ⟨R.head, R.last, R.chain, R.nodup, R.inG, R.free⟩, P.disj⟩
+  · rintro ⟨c, l, r, d⟩
+    exact ⟨c, l, fun i ag r' hag hr => by
+      obtain ⟨h1, h2, h3, h4, h5, h6⟩ := r i ag r' hag hr
+      exact ⟨h1, h2, h3, h4, h5, h6⟩, d⟩
+
+/-- the accepted `walk_board_solvable` certificate yields a route plan: on a generated board (`freshB`: consistent,
+step count 0, nobody has moved, `2k` distinct start / target cells) whose recorded solution the certificate
+`solvedBoardB` accepts, the routes read off the recorded solution (`routesOf`, the search the certificate itself
+runs) form a route plan — for every grid size `n` and agent count `k` -/
+theorem connector_cert_gives_plan (n k : Nat) (s : State) (solved : Grid Int) (hfresh : freshB n k s = true)
+    (hcert : solvedBoardB n k s solved = true) : Connector.Plan n k s (routesOf n solved s.agents) :=
+  Connector.cert_plan (Connector.fresh_consistent n k s hfresh) (Connector.fresh_start hfresh) hcert
+
+/-- OPERATIONAL SOLVABILITY, step by step.  From ANY state with a route plan (every `n`, every `k`) play the
+explicit joint-action sequence `planActs k routes`: agent 0 walks along its route one cell per step while all
+others play the no-op, then agent 1, and so on.  At every step `t` of that episode (state `s` before the step,
+joint action `a`; `traceL2` is the sequence of states under the rules):
+* `a` is in-spec (one action `0..4` per agent);
+* every agent's action is allowed by the mask the implementation hands out (L1 `actionMask`) and legal by the rules;
+* the implementation step is the rule-level step (`step = stepL2`: state, reward, discount, step type, observation);
+* every agent ends exactly where its action sends it: nobody collides, nobody is refused;
+* the successor state is the next state of the trace (so the trace is also the trace of the L1 `step`);
+* the step is LAST exactly when it is the final step of the plan (completion) or the time limit is reached. -/
+theorem connector_plan_playable (cfg : Cfg) (s0 : State) (routes : List (List Pos))
+    (P : Connector.Plan cfg.n cfg.k s0 routes) (t : Nat) (s : State) (a : List Int)
+    (hs : (traceL2 cfg s0 (planActs cfg.k routes))[t]? = some s) (ha : (planActs cfg.k routes)[t]? = some a) :
+    (a.length = cfg.k ∧ ∀ x ∈ a, 0 ≤ x ∧ x ≤ 4) ∧
+    (∀ j, j < cfg.k → ((actionMask s.grid s.agents).getD j []).getD (a.getD j 0).toNat false = true ∧
+        legal cfg.n s j (a.getD j 0).toNat) ∧
+    step cfg s a = stepL2 cfg s a ∧
+    (step cfg s a).1.agents =
+      List.zipWith (fun (ag : Agent) (x : Int) => { ag with position := movePosition ag.position x }) s.agents a ∧
+    (traceL2 cfg s0 (planActs cfg.k routes))[t + 1]? = some (step cfg s a).1 ∧
+    ((step cfg s a).2.stepType = .last ↔
+      (t + 1 = (planActs cfg.k routes).length ∨ cfg.timeLimit ≤ s.stepCount + 1)) :=
+  Connector.plan_episode cfg s0 routes P t s a hs ha
+
+/-- … and the episode ends with every agent connected; if the start state is feasible (as every reset state is,
+`connector_reset_feasible`) the final state is a complete solution -/
+theorem connector_plan_solves (cfg : Cfg) (s0 : State) (routes : List (List Pos))
+    (P : Connector.Plan cfg.n cfg.k s0 routes) :
+    (traceL2 cfg s0 (planActs cfg.k routes)).getLast? = some (finalL2 cfg s0 (planActs cfg.k routes)) ∧
+    (∀ ag ∈ (finalL2 cfg s0 (planActs cfg.k routes)).agents, isConnected ag) ∧
+    (Feasible cfg.n cfg.k s0 → solutionB cfg.n cfg.k (finalL2 cfg s0 (planActs cfg.k routes)) = true) :=
+  ⟨Connector.traceL2_getLast cfg s0 _, (Connector.plan_solves cfg s0 routes P).2,
+    Connector.plan_final_solution cfg s0 routes P⟩
+
+/-- the headline, from the certificate: every generated board accepted by `walk_board_solvable` is solved by the
+explicit episode `solveActs` (read off the recorded solution): all its joint actions are in-spec, and it ends in
+a complete solution — feasible with every agent connected.  (Step-by-step legality, mask, absence of collisions,
+L1 = L2 and LAST-by-completion are `connector_plan_playable` with the plan of `connector_cert_gives_plan`.) -/
+theorem connector_walk_board_operationally_solvable (cfg : Cfg) (s : State) (solved : Grid Int)
+    (hfresh : freshB cfg.n cfg.k s = true) (hcert : solvedBoardB cfg.n cfg.k s solved = true) :
+    (∀ acts ∈ solveActs cfg.n cfg.k s solved, acts.length = cfg.k ∧ ∀ a ∈ acts, 0 ≤ a ∧ a ≤ 4) ∧
+    solutionB cfg.n cfg.k (finalL2 cfg s (solveActs cfg.n cfg.k s solved)) = true :=
+  ⟨Connector.plan_spec cfg s _ (connector_cert_gives_plan cfg.n cfg.k s solved hfresh hcert),
+    Connector.plan_final_solution cfg s _ (connector_cert_gives_plan cfg.n cfg.k s solved hfresh hcert)
+      (Connector.fresh_feasible cfg.n cfg.k s hfresh)⟩
+
+/-- the hypotheses are satisfiable: the certified 3 × 3 board above; its solving episode has four steps (agent 0
+goes right twice while agent 1 waits, then agent 1 goes right twice) and ends on the recorded solution with the
+heads on the targets -/
+example :
+    let s : State := ⟨[[2, 0, 3], [0, 0, 0], [5, 0, 6]], 0, [⟨0, (0, 0), (0, 2), (0, 0)⟩, ⟨1, (2, 0), (2, 2), (2, 0)⟩]⟩
+    let solved : Grid Int := [[2, 1, 3], [0, 0, 0], [5, 4, 6]]
+    let cfg : Cfg := ⟨3, 2, 50, 1, -3/100⟩
+    freshB 3 2 s = true ∧ solvedBoardB 3 2 s solved = true ∧
+    solveActs 3 2 s solved = [[2, 0], [2, 0], [0, 2], [0, 2]] ∧
+    (finalL2 cfg s (solveActs 3 2 s solved)).grid = [[1, 1, 2], [0, 0, 0], [4, 4, 5]] := by decide
+
+/-- … so the hypothesis `Plan` of `connector_plan_playable` / `connector_plan_solves` is satisfiable: the routes
+`[(0,0),(0,1),(0,2)]` and `[(2,0),(2,1),(2,2)]` read off the recorded solution are a route plan of that board -/
+example : Connector.Plan 3 2 ⟨[[2, 0, 3], [0, 0, 0], [5, 0, 6]], 0,
+      [⟨0, (0, 0), (0, 2), (0, 0)⟩, ⟨1, (2, 0), (2, 2), (2, 0)⟩]⟩ [[(0, 0), (0, 1), (0, 2)], [(2, 0), (2, 1), (2, 2)]] :=
+  connector_cert_gives_plan 3 2 _ [[2, 1, 3], [0, 0, 0], [5, 4, 6]] (by decide) (by decide)
+end Props.C10
+
+namespace Props.C08
+/-- whole episodes, ANY in-spec joint actions from a consistent state (every `n`, `k`, every length): the rewards
+agent `i` receives from the implementation model `step` add up (`returnL1`) to the documented objective —
+`connected_reward` if it got connected during the episode plus `timestep_reward` for every step it started
+unconnected -/
+theorem connector_episode_return (cfg : Cfg) (hk : 0 < cfg.k) (actss : List (List Int))
+    (hspec : ∀ acts ∈ actss, acts.length = cfg.k ∧ ∀ a ∈ acts, 0 ≤ a ∧ a ≤ 4) (s0 : State)
+    (hc : Consistent cfg.n cfg.k s0) (i : Nat) (hi : i < cfg.k) :
+    returnL1 cfg s0 actss i = objectiveOf cfg (traceL2 cfg s0 actss) i :=
+  Connector.episode_return_eq_objective cfg hk actss hspec s0 hc hi
+
+/-- corollary for the solving episode of a route plan: every agent's return is the documented objective, which
+here is the connection reward (every agent ends connected; an agent connected from the start gets none) plus the
+per-step time penalty for every step it started unconnected -/
+theorem connector_solving_episode_return (cfg : Cfg) (s0 : State) (routes : List (List Pos))
+    (P : Connector.Plan cfg.n cfg.k s0 routes) (i : Nat) (hi : i < cfg.k) :
+    returnL1 cfg s0 (planActs cfg.k routes) i = objectiveOf cfg (traceL2 cfg s0 (planActs cfg.k routes)) i ∧
+    objectiveOf cfg (traceL2 cfg s0 (planActs cfg.k routes)) i =
+      (if connectedAt s0 i then 0 else cfg.connectedReward) +
+        cfg.timestepReward *
+          ((((traceL2 cfg s0 (planActs cfg.k routes)).dropLast).filter (fun s => !connectedAt s i)).length : Nat) :=
+  Connector.plan_return cfg s0 routes P hi
+
+/-- explicit value: in the solving episode agent `i` (unconnected at the start) pays the time penalty for the
+steps of agents `0 … i` — agent `j` takes `|r_j| − 1` steps, one per edge of its route — and collects the connection
+reward once: `return_i = connected_reward + timestep_reward · Σ_{j ≤ i} (|r_j| − 1)` -/
+theorem connector_solving_episode_return_explicit (cfg : Cfg) (s0 : State) (routes : List (List Pos))
+    (P : Connector.Plan cfg.n cfg.k s0 routes) (i : Nat) (hi : i < cfg.k) :
+    returnL1 cfg s0 (planActs cfg.k routes) i =
+      if connectedAt s0 i then 0
+      else cfg.connectedReward + cfg.timestepReward *
+        ((((List.range (i + 1)).map (fun j => (routes.getD j []).length - 1)).sum : Nat) : Rat) :=
+  Connector.plan_return_explicit cfg s0 routes P hi
+
+/-- on the 3 × 3 board: agent 0 connects after 2 steps (`1 − 2·0.03`), agent 1 after 4 (`1 − 4·0.03`) -/
+example :
+    let s : State := ⟨[[2, 0, 3], [0, 0, 0], [5, 0, 6]], 0, [⟨0, (0, 0), (0, 2), (0, 0)⟩, ⟨1, (2, 0), (2, 2), (2, 0)⟩]⟩
+    let cfg : Cfg := ⟨3, 2, 50, 1, -3/100⟩
+    returnL1 cfg s (solveActs 3 2 s [[2, 1, 3], [0, 0, 0], [5, 4, 6]]) 0 = 94/100 ∧
+    returnL1 cfg s (solveActs 3 2 s [[2, 1, 3], [0, 0, 0], [5, 4, 6]]) 1 = 88/100 := by decide +kernel
+end Props.C08
